@@ -24,6 +24,16 @@
 (* later Load neither sees what an earlier one was given nor changes what  *)
 (* an earlier one returned (Again, HistoryIndependent).                    *)
 (*                                                                         *)
+(* Options do not interfere: Load walks over all registered options in the *)
+(* order of their names; what the environment or the file says about a     *)
+(* NEIGHBOUR - an option that comes before or after this one in that walk, *)
+(* with a well-formed or an ill-formed value - changes nothing for this    *)
+(* option, and a well-formed neighbour takes its value whatever this one   *)
+(* is given (ScanNeighbour, NeighbourIndependent).  A configuration that   *)
+(* is accepted can be run: an accepted value is one the running proxy      *)
+(* understands (Runnable; spellings of enumerated values in another        *)
+(* letter case are either refused or understood).                          *)
+(*                                                                         *)
 (* Load is modelled in the shape of config.Load: the command line is       *)
 (* parsed (which also yields the path of the properties file), the file is *)
 (* read, then for an option not yet set the environment is consulted with  *)
@@ -37,6 +47,8 @@ CONSTANTS
     Bad,         \* the values in Vals that validation rejects (type-correct, semantically invalid)
     Spellings,   \* letter-case spellings of an environment variable name
     JunkClasses, \* classes of environment entries that assign no registered option
+    NbrSays,     \* what a source may say about a neighbour option: [side, src, form]
+    Runnable,    \* the values the running proxy understands
     MaxLoads,    \* how many Loads one process performs (history part)
     HistGivens   \* what the sources may say in the Loads of a history
 
@@ -54,8 +66,11 @@ VARIABLES
     junk,     \* SUBSET JunkClasses            : other entries present in the environment block
     fstate,   \* "absent" | "ok" | "junk"      : the properties file named by -cfg
     pc, val, setby, result,
+    nbr,      \* what is said about the neighbour in this Load (NoNbr: nothing)
+    nbrset,   \* the neighbour took its value
     hist      \* the completed earlier Loads of this process: <<[given, value, result], ...>>
-vars == <<given, spell, junk, fstate, pc, val, setby, result, hist>>
+vars == <<given, spell, junk, fstate, pc, val, setby, result, nbr, nbrset, hist>>
+NoNbr == [side |-> "-", src |-> "-", form |-> "-"]
 
 -----------------------------------------------------------------------------
 \* the declarative meaning
@@ -78,6 +93,9 @@ Init == /\ given \in [Sources -> Vals \cup {None}]
         /\ (given["file"] # None) => fstate = "ok"       \* a file that sets the option is a readable file
         /\ pc = "cmdline" /\ val = Default /\ setby = Default /\ result = None
         /\ hist = <<>>
+        /\ nbr \in NbrSays \cup {NoNbr} /\ nbrset = FALSE
+        /\ nbr # NoNbr => /\ junk = {} /\ fstate # "junk" /\ \A s \in EnvSources : spell[s] = Canonical
+                          /\ nbr.src = "file" => fstate = "ok"
 
 Take(s) == /\ val' = given[s]
            /\ setby' = s
@@ -85,15 +103,15 @@ Take(s) == /\ val' = given[s]
 ParseCmdline == /\ pc = "cmdline"
                 /\ IF given["cmd"] # None THEN Take("cmd") ELSE UNCHANGED <<val, setby>>
                 /\ pc' = "readfile"
-                /\ UNCHANGED <<given, spell, junk, fstate, result, hist>>
+                /\ UNCHANGED <<given, spell, junk, fstate, result, nbr, nbrset, hist>>
 
 \* a junk file is either refused by the properties reader (error) or read as a file
 \* that says nothing about the option
 ReadFile == /\ pc = "readfile"
             /\ \/ /\ fstate = "junk"
                   /\ result' = "error" /\ pc' = "done"
-               \/ /\ pc' = "env" /\ UNCHANGED result
-            /\ UNCHANGED <<given, spell, junk, fstate, val, setby, hist>>
+               \/ /\ pc' = "nbefore" /\ UNCHANGED result
+            /\ UNCHANGED <<given, spell, junk, fstate, val, setby, nbr, nbrset, hist>>
 
 ApplyEnv == /\ pc = "env"
             /\ IF setby # Default THEN UNCHANGED <<val, setby>>
@@ -101,19 +119,26 @@ ApplyEnv == /\ pc = "env"
                ELSE IF EnvHas("env")  THEN val' = EnvValue("env")  /\ setby' = "env"
                ELSE UNCHANGED <<val, setby>>
             /\ pc' = "file"
-            /\ UNCHANGED <<given, spell, junk, fstate, result, hist>>
+            /\ UNCHANGED <<given, spell, junk, fstate, result, nbr, nbrset, hist>>
 
 ApplyFile == /\ pc = "file"
              /\ IF setby = Default /\ given["file"] # None THEN Take("file") ELSE UNCHANGED <<val, setby>>
-             /\ pc' = "validate"
-             /\ UNCHANGED <<given, spell, junk, fstate, result, hist>>
+             /\ pc' = "nafter"
+             /\ UNCHANGED <<given, spell, junk, fstate, result, nbr, nbrset, hist>>
+
+\* the walk reaches the neighbour: a well-formed value is taken, an ill-formed one is ignored -
+\* and in both cases the walk goes on to the next option
+ScanNeighbour(side) == /\ pc = "n" \o side
+                       /\ nbrset' = (nbrset \/ (nbr.side = side /\ nbr.form = "ok"))
+                       /\ pc' = IF side = "before" THEN "env" ELSE "validate"
+                       /\ UNCHANGED <<given, spell, junk, fstate, val, setby, result, nbr, hist>>
 
 Validate == /\ pc = "validate"
             /\ result' = IF val \in Bad THEN "error" ELSE "cfg"
             /\ pc' = "done"
-            /\ UNCHANGED <<given, spell, junk, fstate, val, setby, hist>>
+            /\ UNCHANGED <<given, spell, junk, fstate, val, setby, nbr, nbrset, hist>>
 
-Next == ParseCmdline \/ ReadFile \/ ApplyEnv \/ ApplyFile \/ Validate
+Next == ParseCmdline \/ ReadFile \/ ScanNeighbour("before") \/ ApplyEnv \/ ApplyFile \/ ScanNeighbour("after") \/ Validate
 Spec == Init /\ [][Next]_vars /\ WF_vars(Next)
 
 \* the same process loads again: the completed Load is filed, the next one starts from the
@@ -123,14 +148,15 @@ Again(g) == /\ pc = "done" /\ Len(hist) < MaxLoads - 1
             /\ given' = g
             /\ fstate' = IF g["file"] # None THEN "ok" ELSE "absent"
             /\ pc' = "cmdline" /\ val' = Default /\ setby' = Default /\ result' = None
-            /\ UNCHANGED <<spell, junk>>
-HistInit == /\ Init /\ given \in HistGivens /\ junk = {} /\ fstate = (IF given["file"] # None THEN "ok" ELSE "absent")
+            /\ nbrset' = FALSE
+            /\ UNCHANGED <<spell, junk, nbr>>
+HistInit == /\ Init /\ nbr = NoNbr /\ given \in HistGivens /\ junk = {} /\ fstate = (IF given["file"] # None THEN "ok" ELSE "absent")
             /\ \A s \in EnvSources : spell[s] = Canonical
 HistNext == Next \/ \E g \in HistGivens : Again(g)
 HistSpec == HistInit /\ [][HistNext]_vars
 
 -----------------------------------------------------------------------------
-TypeOK == /\ pc \in {"cmdline", "readfile", "env", "file", "validate", "done"}
+TypeOK == /\ pc \in {"cmdline", "readfile", "nbefore", "env", "file", "nafter", "validate", "done"}
           /\ val \in Vals \cup {Default}
           /\ setby \in Sources \cup {Default}
           /\ result \in {None, "cfg", "error"}
@@ -147,6 +173,10 @@ SingleSource == (pc = "done" /\ result = "cfg") =>
                    \A s \in Sources : (\A t \in Sources \ {s} : given[t] = None) /\ given[s] # None => val = given[s]
 PairPrecedence == (pc = "done" /\ result = "cfg") =>
                    \A i, j \in DOMAIN Order : (i < j /\ given[Order[i]] # None /\ given[Order[j]] # None) => setby # Order[j]
+\* what is said about a neighbour neither changes this option (ResultIsEffective does not mention
+\* nbr) nor is lost: a well-formed neighbour value is taken, an ill-formed one is not
+NeighbourIndependent == (pc = "done" /\ result = "cfg") => (nbrset <=> nbr.form = "ok")
+AcceptedIsRunnable == (pc = "done" /\ result = "cfg") => val \in Runnable \cup {Default}
 \* what an earlier Load returned is a function of what IT was given, and stays so
 HistoryIndependent == \A i \in DOMAIN hist :
                          /\ hist[i].result \in {"cfg", "error"}
